@@ -321,6 +321,10 @@ func (g *gen) field(fieldName string, fieldType types.Type) (string, error) {
 			types.Uintptr, types.UntypedInt:
 			return fmt.Sprintf("uint64(%s)", fieldName), nil
 		case types.Uint64:
+			if !types.Identical(fieldType, typ) {
+				// a named uint64 type is not a uint64
+				return fmt.Sprintf("uint64(%s)", fieldName), nil
+			}
 			return fmt.Sprintf("%s", fieldName), nil
 		// Adding 0 turns -0 into +0, which are equal and so have to hash to the same number.
 		case types.Float32:
